@@ -28,7 +28,7 @@ RULE = ("full in-memory stack: real Router + 1..3 generated drivers (1-3 groups,
 ASSUMPTIONS = ["BLOB payloads are compared by C08; Element.enabled toggles at run time are not in the quantifier",
                "numbers are compared numerically within the format's resolution",
                "a device without enabled properties may or may not be listed"]
-REQUIRED_EVENTS = ["reactive_in_process_client_cases", "sessions", "sessions_with_a_slow_blob_connect", "client_submits_with_nothing_assigned", "client_handshakes_for_one_device", "sessions_with_a_tty_client", "tty_client_properties_compared", "sessions_with_lagging_blob_link", "client_restarts_with_kept_mirror", "driver_ops_while_client_disconnected", "driver_ops_during_handshake", "checkpoints", "library_client_properties_compared", "reference_mirror_messages",
+REQUIRED_EVENTS = ["sessions_with_a_reacting_in_process_client", "writes_from_inside_a_definition_callback", "reactive_in_process_client_cases", "sessions", "sessions_with_a_slow_blob_connect", "client_submits_with_nothing_assigned", "client_handshakes_for_one_device", "sessions_with_a_tty_client", "tty_client_properties_compared", "sessions_with_lagging_blob_link", "client_restarts_with_kept_mirror", "driver_ops_while_client_disconnected", "driver_ops_during_handshake", "checkpoints", "library_client_properties_compared", "reference_mirror_messages",
                    "snooping_client_checkpoints", "ops_with_bytes_in_flight", "depth3_sessions"]
 
 QUICK_SHARDS = 4
@@ -305,8 +305,38 @@ async def session(ctx, case):
         mirror = fullstack.MultiMirror([client._vf_links[0].s2c, client._vf_links[1].s2c])
         snooper = None
         if case.get("snoop"):
+            if case["i"] % 2 == 0:
+                # (reacting snooper, below) let the accepted connections register with the router first: the snooping client is then
+                # the LAST registered client, and the re-entrant ordering defect recorded as a known finding stays out of these sessions
+                for _ in range(4):
+                    await asyncio.sleep(0)
             sn = drivers[1].snoop_device(specs[0]["name"])
             snooper = (sn, 0)
+        if snooper is not None and case["i"] % 2 == 0:
+            # The snooping driver REACTS: whenever a Text / Number property of the snooped device is (re-)defined it writes a value of
+            # its own from inside the callback.  Its client was registered last, so nobody is handed the update before the definition.
+            from indi.client import events as CE
+            rrng = ctx.rng("reactive", case["i"])
+            dev0 = specs[0]["name"]
+
+            def react(event, _n=[0]):
+                vec = event.vector
+                kind = type(vec).__name__.replace("Vector", "")
+                if kind not in ("Text", "Number") or _n[0] > 200:
+                    return
+                names = list(vec.list_elements())
+                if not names:
+                    return
+                _n[0] += 1
+                vec.get_element(rrng.choice(names)).value = client_value(rrng, kind, None)
+                try:
+                    vec.submit()
+                except Exception as e:
+                    reactive_errors.append(repr(e))
+                ctx.count("writes_from_inside_a_definition_callback")
+            reactive_errors = []
+            sn.onevent(callback=react, device=dev0, event_type=CE.DefinitionUpdate)
+            ctx.count("sessions_with_a_reacting_in_process_client")
         ctx.count("sessions")
         if any(len(s["levels"]) >= 3 for s in specs):
             ctx.count("depth3_sessions")
